@@ -5,7 +5,7 @@
 V=$(cd "$(dirname "$0")/.." && pwd)
 R=$1; J=$2; shift 2
 mkdir -p "$R"
-ids=("$@"); [ ${#ids[@]} -gt 0 ] || ids=($(ls "$V/seeded" | grep -E '^C[0-9]+-[a-z]$'))
+ids=("$@"); [ ${#ids[@]} -gt 0 ] || ids=($(ls "$V/seeded" | grep -E '^C[0-9]+-[a-z][0-9]?$'))
 one() {
   V=$1; R=$2; sid=$3; P=$(python3 -c "import json;print(json.load(open('$V/seeded/$sid/meta.json'))['property'])")
   WT=$R/$sid
